@@ -63,7 +63,7 @@ TRUSTED = ['gzip DEcompression is MODELLED (Compress/Inflate.v: RFC 1952 contain
            'inflate incl. fixed and dynamic Huffman blocks) and compared with the real zlib on every run (streams emitted by the '
            'real z.compress wrapper, their strict prefixes, bit-flipped / cut / extended variants with zlib verdicts); proved of '
            'the model: prefix facts (law H3 for every accepted stream), trailer check, stored-encoder round trip, H1-H3 for the '
-           'codec built from it. NOT proved: that the inflate output on Huffman blocks is what zlib means (comparison only); '
+           'codec built from it. also proved: gunzip inverts four encoders (fixed-Huffman literals / runs, arbitrary LZ77 tokens with a greedy compressor, one dynamic-Huffman block with a fixed complete code). NOT proved: the inflate output on arbitrary dynamic codes and multi-block streams (comparison with zlib only); '
            'zlib compressor; zstandard is not modelled at all',
            'zlib compression and zstandard (C libraries) enter the wrapper theorems as Section variables '
            'cstep/cflush/dstep/deof/dflush constrained by the named hypotheses H1 (decoder output, raising and '
